@@ -499,7 +499,7 @@ class Machine:
                 ent[(rng.choice(palette),) + tuple(0 for _ in s.a.shape[1:])] = [r for r in range(s.a.shape[0]) if rng.random() < 0.5]
         entries = [[list(k), sorted(set(v))] for k, v in ent.items()]
         return {"op": "set_update", "which": which, "slot": i, "entries": entries, "as_index": rng.random() < 0.3,
-                "as_lists": rng.random() < 0.2, "as_strided": rng.random() < 0.25}
+                "as_lists": rng.random() < 0.2, "as_strided": rng.random() < 0.25, "scrub": rng.random() < 0.35}
 
     def gen_observe(self, rng, palette):
         i = self._slot_where(rng, lambda s: s.a.ndim <= 2)
@@ -1018,6 +1018,11 @@ class Machine:
         fn = getattr(s.idx, which + "_update")
         self.call(which + "_update", fn, operand)
         self.unchanged(operand, snap, which + "_update")
+        if op.get("scrub") and operand is arrays:
+            # the caller's arrays were a staging buffer: it reuses them for the next batch once the call has returned
+            for v in arrays.values():
+                v[...] = 0
+            self.stats.count("probe_caller_reuses_operand_arrays_after_update")
         s.a = want
 
     def do_observe(self, op):
